@@ -81,9 +81,12 @@ def step (cx : Ctx) (line : String) (robs : Option RObs) : Option MOut :=
     let faulted := args.getLast?.map isFaultTok = some true
     let cmpFault := faulted ∧ op.startsWith "sort_" ∧ !op.startsWith "sort_unstable" ∧
       ((args.getLast?.getD "").startsWith "!cmp:" ∨ (args.getLast?.getD "").startsWith "!key:")
-    if faulted ∧ !cmpFault then none else
+    -- … and a panicking `T::clone` inside `clone_from` (the call number is in the token)
+    let cloneK : Option Nat :=
+      if faulted ∧ op = "clone_from" ∧ (args.getLast?.getD "").startsWith "!clone:" then ((args.getLast?.getD "").drop 7).toString.toNat? else none
+    if faulted ∧ !cmpFault ∧ cloneK.isNone then none else
     let args := if faulted then args.dropLast else args
-    let cx := { cx with fault := faulted }
+    let cx := { cx with fault := faulted, faultK := cloneK }
     match parseSegs recvTok with
     | none => some cx.badOp
     | some segs =>
@@ -93,7 +96,7 @@ def step (cx : Ctx) (line : String) (robs : Option RObs) : Option MOut :=
       | .ok none => some cx.badOp
       | .ok (some rc) =>
         let rootOnly := ["new","init","from_vec","from_box","default","with_capacity","into_vec","into_box","into_iter",
-          "clone","eq","insert_row","push_row","insert_col","push_col","remove_row","pop_row","remove_col","pop_col",
+          "clone","clone_from","eq","insert_row","push_row","insert_col","push_col","remove_row","pop_row","remove_col","pop_col",
           "clear","swap_dimensions","reserve","reserve_exact","shrink_to_fit","capacity"]
         if rootOnly.contains op then
           if !rc.isRoot then some cx.badOp
